@@ -5,8 +5,8 @@ digit layer (bn_add, bn_sub, bn_mul, bn_div_rem = floor division, bn_hlv = magni
 the exact integer operations (proved for the digit models in C01).  No Mathlib.
 
 Data-dependent loops carry a fuel argument; the public functions supply a bound that is proved sufficient
-in Lemmas/NtGcd.lean (the fuel-exhausted arm is unreachable), except for the final cofactor-reduction loop of
-bn_gcd_ext_binar, whose exhaustion is reported as `none` (termination of that loop is observed, not proved).
+in Lemmas/NtGcd*.lean (the fuel-exhausted arm is unreachable; for the final cofactor-reduction loop of bn_gcd_ext_binar the
+fuel |C| + 2 is proved sufficient in Lemmas/NtGcdD.lean).
 -/
 namespace Relic.Model.NtGcd
 
@@ -145,9 +145,6 @@ def extBinarFix (x y hA hB : Int) : Nat → Int → Int → Option (Int × Int)
       else extBinarFix x y hA hB f (C - u) (D + v)
     else some (C, D)
 
-/-- fuel of the reciprocal-fix loop: generous (the loop at least halves the excess each round when it moves) -/
-def fixFuel (a b : Int) : Nat := 4 * (Nat.log2 a.natAbs + Nat.log2 b.natAbs) + 64
-
 def gcdExtBinarImp (a b : Int) : Option (Int × Int × Int) :=
   if a = 0 then some ((b.natAbs : Int), 0, 1)
   else if b = 0 then some ((a.natAbs : Int), 1, 0)
@@ -162,7 +159,7 @@ def gcdExtBinarImp (a b : Int) : Option (Int × Int × Int) :=
       if g = 0 then none else     -- bn_div by zero would raise; unreachable (g ≥ 1)
       let x' := x / (g : Int)
       let y' := y / (g : Int)
-      match extBinarFix x' y' (hlv x') (hlv y') (fixFuel a b) C D with
+      match extBinarFix x' y' (hlv x') (hlv y') (C.natAbs + 2) C D with
       | none => none
       | some (C', D') => some (((g <<< ct.2.2 : Nat) : Int), C', D')
 
